@@ -1,17 +1,13 @@
-"""Per-property configuration of ./check (see DESIGN.md §6). Kept as data so that the
-MANIFEST can be generated from it (./mkmanifest.py)."""
-
+"""Per-property configuration of ./check: one JSON file per property under props/
+(so that properties can be added without touching shared files). See CONVENTIONS.md."""
+import json, os, glob
+_D = os.path.join(os.path.dirname(os.path.abspath(__file__)), "props")
 PROPS = {}
-
-PROPS["C20"] = dict(
-    title="Internal key, header and value encodings round-trip and order correctly",
-    modules=["BadgerProofs.Props.C20"],
-    required_theorems=["C20_parseKey_keyWithTs", "C20_parseTs_keyWithTs", "C20_compareKeys_order"],
-    corr=[dict(engine="codec", name="key+header+vs+vptr", params={"families": "key"},
-               n=dict(quick=3000, thorough=300000))],
-    technique="Lean 4 theorems (round-trip, order law) over a byte-level model + differential correspondence with y.KeyWithTs/ParseTs/CompareKeys",
-    level_text="unbounded theorems over all keys/versions for the model; the model is tied to the code by differential runs on generated and corpus inputs",
-    trusted=["encoding/binary, bytes.Compare (Go stdlib) behave as modelled"],
-    assumptions=["timestamps are uint64 (ts ≤ 2^64-1)"],
-    design_ref="§6 C20",
-)
+for _f in sorted(glob.glob(os.path.join(_D, "C*.json"))):
+    PROPS[os.path.basename(_f)[:-5]] = json.load(open(_f))
+NOT_APPLICABLE = {}
+if os.path.exists(os.path.join(_D, "not_applicable.json")):
+    NOT_APPLICABLE = json.load(open(os.path.join(_D, "not_applicable.json")))
+HOOK_COMMITS = []
+if os.path.exists(os.path.join(_D, "hook_commits.json")):
+    HOOK_COMMITS = json.load(open(os.path.join(_D, "hook_commits.json")))
